@@ -378,7 +378,7 @@ Definition by_index (a : attrs) (v : rval) (c : ctx) : gen rval :=
               glift (mapM (fun si =>
                              let zi := Z.of_nat si in
                              do e <- py_nth els zi;
-                             Ok (ncoords e (Some v) (Some (PInt intmin)) (tp_add tp (idx_text zi))
+                             Ok (ncoords e (Some v) (Some (PInt zi)) (tp_add tp (idx_text zi))
                                         (anc ++ [(v, PInt zi)])%list))
                           (range lo hi))
                     (fun sliced =>
